@@ -119,6 +119,16 @@ def s_abstract_int(E, a, k):
     return SInt(t, None, lo, hi)
 
 
+def s_hexdigit_value(E, a, k):
+    v = E.force(a[0])
+    if isinstance(v, int):
+        ch = chr(v)
+        return int(ch, 16) if ch in "0123456789abcdefABCDEF" else None
+    if isinstance(v, SInt) and v.origin is not None and v.origin[0] == "hexchar":
+        return int_from_cells(v.origin[1])
+    return None
+
+
 def s_new_object(E, a, k):
     from .interp import ClassValue
     cls = E.force(a[0])
@@ -149,6 +159,7 @@ def members():
     m["outcome_close"] = Builtin("outcome_close", s_close)
     m["repo"] = Builtin("repo", s_repo)
     m["new_object"] = Builtin("new_object", s_new_object)
+    m["hexdigit_value"] = Builtin("hexdigit_value", s_hexdigit_value)
     m["exact"] = Builtin("exact", lambda E, a, k: a[0])
     m["frac"] = Builtin("frac", lambda E, a, k: BM.binop(E, "/", E.force(a[0]), E.force(a[1])))
     m["pi_const"] = Builtin("pi_const", lambda E, a, k: BM.pi_value(E))
